@@ -28,7 +28,7 @@ func (c08) ID() string { return "C08" }
 func (c08) Meta() Meta {
 	return Meta{
 		Level:       "exploration",
-		Rule:        "soundness + round-trip monitor: (a) on fixtures and generated reference-heavy configurations every cursor inside an attribute value of the base files (all expression forms the generator writes: operators, templates, conditionals, for, index, function arguments, parentheses, collection literals) gets CompletionAtPos; every reference candidate must be the address (absolute, or block-local with the cursor inside its visible-from range and self.* only where enabled) of a collected declaration, must not be a declaration that lies inside the attribute being edited, and with a direct Reference scope constraint must carry (or nest) that scope; every function candidate must be a known function whose return type converts to the expected type when that type is known; (b) 'typing replays' rewrite the value of seeded attributes to empty and to prefixes of offered candidates: every candidate must start with the typed prefix and the offered one must still be offered; for Keyword / LiteralValue / bool LiteralType constraints (and OneOf of them) the candidates at the empty value must be exactly the admitted words; (c) accepting a reference candidate whose declaration itself fits, re-collecting targets and origins and asking go-to-definition at the inserted text must report that declaration. distinct non-trivial = (expression form at the cursor, constraint kind, candidate kind) with >= 1 candidate.",
+		Rule:        "soundness + round-trip monitor: (a) on fixtures and generated reference-heavy configurations every cursor inside an attribute value of the base files (all expression forms the generator writes: operators, templates, conditionals, for, index, function arguments, parentheses, collection literals) gets CompletionAtPos; every reference candidate must be the address (absolute, or block-local with the cursor inside its visible-from range and self.* only where enabled) of a collected declaration, must not be a declaration that lies inside the attribute being edited, and with a direct Reference scope constraint must carry (or nest) that scope; every function candidate must be a known function of THIS path (description and parameter list of this path's signature - the fixture's child module and root declare functions of the same names with different signatures) whose return type converts to the expected type when that type is known; (b) 'typing replays' rewrite the value of seeded attributes to empty and to prefixes of offered candidates: every candidate must start with the typed prefix (whether the candidate the prefix was cut from is offered again is counted only: the property states soundness); for Keyword / LiteralValue / bool LiteralType constraints (and OneOf of them) the candidates at the empty value must be exactly the admitted words; (c) accepting a reference candidate whose declaration itself fits, re-collecting targets and origins and asking go-to-definition at the inserted text must report that declaration. distinct non-trivial = (expression form at the cursor, constraint kind, candidate kind) with >= 1 candidate.",
 		Assumptions: []string{"don't-care: the order of candidates of different producers; truncated lists (soundness only)", "the expected type of nested positions (inside operators, calls, collections) is not modelled: there only address/visibility/function-known soundness is checked"},
 		Floor:       map[string]int{"quick": 40, "thorough": 100},
 		CaseBudget:  60,
@@ -178,12 +178,27 @@ func (p c08) checkText(unit int, rc Recipe, st State, text string, only int, mod
 		offs = []int{only}
 	}
 	var refLabels []string
+	var emptySites []valueSite
 	for _, off := range offs {
 		pos, ok := tab.At(off)
 		if !ok {
 			continue
 		}
 		cls := model.Classify(src, body, root, off, "", false, false)
+		if mode == "empty" && cls.Attr == nil {
+			// the value was emptied: the attribute's own extent ends in front of the cursor,
+			// it is found by its line
+			if emptySites == nil {
+				emptySites = []valueSite{}
+				valueSites(body, root, &emptySites)
+			}
+			for _, vs := range emptySites {
+				if vs.attr.NameRange.Start.Line == pos.Line && vs.attr.NameRange.End.Byte < off {
+					cls.Kind, cls.Attr, cls.AttrSchema, cls.Eff = "value", vs.attr, vs.schema, vs.eff
+					rep.Count("emptied_values_asked", 1)
+				}
+			}
+		}
 		if cls.Kind != "value" && !(mode != "" && cls.Kind == "other" && cls.Attr != nil) {
 			continue
 		}
@@ -289,6 +304,27 @@ func (p c08) checkText(unit int, rc Recipe, st State, text string, only int, mod
 						viol("FUNC-CANDIDATE return-type-does-not-convert", fmt.Sprintf("function %q returns %s which does not convert to the expected %s", c.Label, fs.ReturnType.FriendlyName(), wantType.FriendlyName()))
 					}
 				}
+				// the candidate describes THIS path's function of that name: description and
+				// parameter list (names in order, one entry per parameter) of its signature
+				if c.Description.Value != fs.Description {
+					viol("FUNC-CANDIDATE description-of-another-signature", fmt.Sprintf("function candidate %q carries the description %q, this path declares %q", c.Label, trunc(c.Description.Value, 80), trunc(fs.Description, 80)))
+				}
+				if i, j := strings.Index(c.Detail, "("), strings.LastIndex(c.Detail, ")"); strings.HasPrefix(c.Detail, c.Label+"(") && j > i {
+					var entries []string
+					if inner := c.Detail[i+1 : j]; inner != "" {
+						entries = strings.Split(inner, ", ")
+					}
+					want := paramNames(fs)
+					ok := len(entries) == len(want)
+					for k := 0; ok && k < len(want); k++ {
+						if !strings.Contains(entries[k], want[k]+" ") {
+							ok = false
+						}
+					}
+					if !ok {
+						viol("FUNC-CANDIDATE detail-of-another-signature", fmt.Sprintf("function candidate %q is detailed as %q, this path declares the parameters %v", c.Label, c.Detail, want))
+					}
+				}
 				if typedPrefix != "" && !strings.HasPrefix(c.Label, typedPrefix) {
 					viol("FUNC-CANDIDATE ignores-typed-prefix", fmt.Sprintf("function candidate %q does not start with the typed text %q", c.Label, typedPrefix))
 				}
@@ -303,8 +339,13 @@ func (p c08) checkText(unit int, rc Recipe, st State, text string, only int, mod
 					found = true
 				}
 			}
+			// (the property asks for soundness of what is offered, not for completeness:
+			// a candidate offered for the empty value and no longer after its prefix -
+			// nested declarations below a typed root are - is counted, not a violation)
 			if !found {
-				viol("REF-CANDIDATE lost-after-typing-its-prefix", fmt.Sprintf("%q was offered for the empty value but not after typing %q", want, typedPrefix))
+				rep.Count("offered_at_empty_value_but_not_after_prefix", 1)
+			} else {
+				rep.Count("offered_again_after_prefix", 1)
 			}
 		}
 		// exactness for word constraints at the empty value
@@ -327,14 +368,17 @@ func (p c08) checkText(unit int, rc Recipe, st State, text string, only int, mod
 			}
 		}
 		// (c) round trip for one reference candidate whose declaration itself fits
-		if mode == "empty" && wantScope != "" {
+		// (not for dependency-key attributes: accepting a value there selects another body)
+		if mode == "empty" && wantScope != "" && !cls.AttrSchema.IsDepKey {
 			for _, c := range cands.List {
 				if c.Kind != lang.ReferenceCandidateKind {
 					continue
 				}
 				var decl *reference.Target
 				for _, t := range byAbs[c.Label] {
-					if t.ScopeId == wantScope && t.RangePtr != nil && t.Type == cty.NilType {
+					// (declarations without a definition range - traversals declared through
+					// Reference{Address} - cannot be recognised in the go-to-definition answer)
+					if t.ScopeId == wantScope && t.RangePtr != nil && t.DefRangePtr != nil && t.Type == cty.NilType {
 						tt := t
 						decl = &tt
 					}
